@@ -1071,6 +1071,7 @@ pub fn generate(seed: u64, case: u64, max_steps: usize) -> Ran {
         return ran;
     }
     let member_ids: Vec<usize> = voters.iter().filter_map(|(a, _)| if let Arg::Id(i) = a { Some(*i) } else { None }).collect();
+    let executor_set = ran.trace.init.executor.is_some();
     let sink = ids[n - 1];
     let nsteps = 1 + r.below(max_steps as u64) as usize;
     let mut title = 0u64;
@@ -1126,7 +1127,8 @@ pub fn generate(seed: u64, case: u64, max_steps: usize) -> Ran {
         } else if kind < 35 || props.is_empty() {
             title += 1;
             let mut msgs = vec![];
-            for _ in 0..r.below(3) {
+            let nmsgs = if executor_set && props.iter().any(|p| p.status == 4) { 1 + r.below(2) } else { r.below(3) };
+            for _ in 0..nmsgs {
                 msgs.push(match r.below(12) {
                     0..=4 => PMsg::Bank {
                         to: sink,
@@ -1139,7 +1141,15 @@ pub fn generate(seed: u64, case: u64, max_steps: usize) -> Ran {
                             1 + r.below(30) as u128
                         }),
                     },
-                    5 | 6 => PMsg::SelfExec(pick_id(&mut r)),
+                    5 | 6 => {
+                        // with an executor rule: preferably the re-entrant execution of another proposal that has passed
+                        let passed: Vec<u64> = props.iter().filter(|p| p.status == 4).map(|p| p.id).collect();
+                        if executor_set && !passed.is_empty() && r.chance(2, 3) {
+                            PMsg::SelfExec(*r.pick(&passed))
+                        } else {
+                            PMsg::SelfExec(pick_id(&mut r))
+                        }
+                    }
                     7 => PMsg::SelfExec(props.len() as u64 + 1),
                     8 => PMsg::SelfClose(pick_id(&mut r)),
                     9 => PMsg::Fail(r.below(5)),
@@ -1380,6 +1390,34 @@ pub fn generate(seed: u64, case: u64, max_steps: usize) -> Ran {
                     }
                 }
                 _ => {}
+            }
+            // an executor rule and a passed proposal B waiting: a proposal A carrying the re-entrant Execute{B} is
+            // proposed, voted through by everybody and executed by an authorised caller (B's execution, nested
+            // inside, is then requested by the multisig itself, which no executor rule authorises)
+            if pending.is_empty() && executor_set && r.chance(1, 4) {
+                if let Some(o) = &last_after {
+                    let passed: Vec<u64> = o.props.iter().filter(|p| p.status == 4).map(|p| p.id).collect();
+                    if !passed.is_empty() && !member_ids.is_empty() {
+                        let (h, t) = (w.height, w.time);
+                        let who = member_ids[0];
+                        let caller = match &ran.trace.init.executor {
+                            Some(Exec::Only(x)) => *x,
+                            _ => who,
+                        };
+                        let (funds, allow) = match &deposit {
+                            Some(d) if d.tok == Tok::Native => (vec![(0, d.amount.max(Uint128::new(1)))], None),
+                            Some(d) => (vec![], Some(d.amount)),
+                            None => (vec![], None),
+                        };
+                        title += 1;
+                        let pid = o.props.len() as u64 + 1;
+                        pending.push_back(Step::Call { h, t, s: who, op: Op::Propose { title, msgs: vec![PMsg::SelfExec(*r.pick(&passed))], latest: None, funds, allow } });
+                        for m in member_ids.iter().cloned().filter(|m| *m != who) {
+                            pending.push_back(Step::Call { h, t, s: m, op: Op::Vote { id: pid, v: V::Yes } });
+                        }
+                        pending.push_back(Step::Call { h, t, s: caller, op: Op::Execute { id: pid } });
+                    }
+                }
             }
             // executor = any member: remove a member and let it try to execute a passed proposal in the same block
             if pending.is_empty() && matches!(ran.trace.init.executor, Some(Exec::Member)) && r.chance(1, 4) {
